@@ -32,6 +32,19 @@ def anchors_drifted(prop):
         return ['anchor check failed: %r' % (e,)]
 
 
+def abbreviate(obj, maxlen=24):
+    """evidence samples stay readable: long lists are cut to their head plus a length marker"""
+    if isinstance(obj, list):
+        if len(obj) > maxlen:
+            return [abbreviate(x, maxlen) for x in obj[:maxlen]] + ['... (%d items in total)' % len(obj)]
+        return [abbreviate(x, maxlen) for x in obj]
+    if isinstance(obj, dict):
+        return {k: abbreviate(v, maxlen) for k, v in obj.items()}
+    if isinstance(obj, str) and len(obj) > 200:
+        return obj[:200] + '... (%d chars)' % len(obj)
+    return obj
+
+
 def observe(prop, cases, nworkers=None):
     """real outputs for `cases` (crash-isolated worker processes; one column per configuration when the prop defines CONFIGS)"""
     if getattr(prop, 'INPROCESS', False):
@@ -77,7 +90,7 @@ def evaluate(prop, cases, stats, jobs=None):
         elif not ok_a:
             dis.append((c, o, r))
         if len(stats['samples']) < 3 and prop.nontrivial(c, o, r):
-            stats['samples'].append({'case': c, 'observed': o, 'model': r.get('model')})
+            stats['samples'].append(abbreviate({'case': c, 'observed': o, 'model': r.get('model')}))
     return viol, dis
 
 
